@@ -1,4 +1,4 @@
 SPECIFICATION Spec
-CONSTANTS MaxCase = 3
+CONSTANTS MaxCase = 2
 INVARIANTS Emit
 CHECK_DEADLOCK FALSE
